@@ -58,7 +58,7 @@ ASSUMPTIONS = [
     "git: directories are not tracked: the disk is compared without directories; file ids are not compared; symlinks and exec bits are",
     "the versioned set, kinds, contents, exec bits and ids are compared; the kind the dirstate had recorded for an entry, pending-merge parents and merge-hashes are not",
     "text merges never run here (no law lets both sides change one file differently): WeaveMerger / LCAMerger differ from Merge3Merger only in entry enumeration and options; C19 covers the text merge",
-    "guards (reported defects; lifted in a share of the runs once known_findings.json has an open entry [C17, known-defect, <guard>], or with VERIF_UNGUARDED=1): git_symlink_replaced = no git THIS tree in which a tracked symlink has been replaced by a file or directory (GitWorkingTree.iter_entries_by_dir / iter_references raise OSError EINVAL from readlink, so every merge into such a tree fails); git_dir_file_swap = no git merge in which one path is a directory in one of BASE / OTHER / THIS (incl. unversioned files of THIS) and a file or symlink in another (path-keyed trans ids: the merge reports bogus conflicts or raises NoSuchFile); git_dir_rename = no git batch renames or moves a directory (the same directory rename on both sides, uncommitted in THIS, is reported as 'Text conflict in <new dir>'); git_untracked_in_emptied_dir = no git merge in which OTHER removes the last tracked file of a directory that holds untracked files or directories in THIS (the 'deleting parent' problem is returned as 'Text conflict in <dir>' although nothing conflicts)",
+    "guards (reported defects; lifted in a share of the runs once known_findings.json has an open entry [C17, known-defect, <guard>], or with VERIF_UNGUARDED=1): git_symlink_replaced = no git THIS tree in which a tracked symlink has been replaced by a file or directory (GitWorkingTree.iter_entries_by_dir / iter_references raise OSError EINVAL from readlink, so every merge into such a tree fails); git_dir_file_swap = no git merge in which one path is a directory in one of BASE / OTHER / THIS (incl. unversioned files of THIS) and a file or symlink in another (path-keyed trans ids: the merge reports bogus conflicts or raises NoSuchFile); git_dir_rename = no git batch renames or moves a directory (the same directory rename on both sides, uncommitted in THIS, is reported as 'Text conflict in <new dir>'); git_untracked_in_emptied_dir = no git merge in which OTHER removes the last tracked file of a directory that holds untracked files or directories in THIS (the 'deleting parent' problem is returned as 'Text conflict in <dir>' although nothing conflicts); git_rename_onto_vacated_path = no git merge in which OTHER renamed a file onto a path whose old occupant it deleted / renamed away / unversioned while THIS changed that path too (e.g. the identical change on both sides: path identity makes the old and the new occupant one file and the merge returns 'Text conflict in <path>'); weave_uncommitted_rename (bzr, WeaveMerger / LCAMerger) = no THIS tree with an uncommitted rename above an entry whose kind changed to file on disk behind the dirstate's back: the stale kind sends the entry into a text merge and InventoryTree._get_file_revision looks the working-tree path up in the parent trees (AttributeError; the same happens to any weave / lca text merge of a file renamed but not committed in THIS)",
     "git: BASE has no empty directories (untracked; a merge that deletes the last tracked file of their parent reports a 'deleting parent' problem as 'Text conflict in <dir>')",
     "if building BASE / THIS / OTHER itself raises or disagrees with the treesim model the run is abandoned (probe setup_abandoned): that is C09's property",
     "runs execute in-process (ISOLATION=thread): each run builds both trees, models and the Sim from scratch",
@@ -67,7 +67,7 @@ STEP_CAP = 400000
 ISOLATION = "thread"
 
 # states that run into defects already reported; see ASSUMPTIONS
-GUARDS = ("git_symlink_replaced", "git_dir_file_swap", "git_dir_rename", "git_untracked_in_emptied_dir")
+GUARDS = ("git_symlink_replaced", "git_dir_file_swap", "git_dir_rename", "git_untracked_in_emptied_dir", "git_rename_onto_vacated_path", "weave_uncommitted_rename")
 P_UNGUARDED = float(os.environ.get("VERIF_UNGUARDED", "0") or 0)
 P_LIFT = 0.15
 LAWS = ["other_is_base", "this_is_base", "identical", "disjoint", "disjoint"]
@@ -296,9 +296,18 @@ def _dirs_nondirs(paths_kinds):
     return dirs, nondirs
 
 
-def guarded_state(m_this, m_base=None, m_other=None):
+def guarded_state(m_this, m_base=None, m_other=None, mtype="merge3"):
     """Name of the reported defect (GUARDS) this merge would run into, or None."""
     if m_this.flavour != "git":
+        if mtype in ("weave", "lca"):
+            # an entry whose kind changed to file on disk since the tree last looked (its
+            # recorded kind is stale, so the merge cannot take its sha1 and falls into a text
+            # merge) and that sits at another path than in the basis (uncommitted rename of it
+            # or of a directory above it): plan_file_merge looks that path up in the parent trees
+            bids = m_this.basis_ids()
+            for q, (fid, ikind) in m_this.inv.items():
+                if ikind != T.FILE and m_this.dkind(q) == T.FILE and fid in bids and bids[fid] != q:
+                    return "weave_uncommitted_rename"
         return None
     for q, (_fid, ikind) in m_this.inv.items():
         if ikind == T.LINK and m_this.dkind(q) in (T.DIR, T.FILE):
@@ -320,6 +329,18 @@ def guarded_state(m_this, m_base=None, m_other=None):
         for j, (_d2, n2) in enumerate(views):
             if i != j and d1 & n2:
                 return "git_dir_file_swap"
+    if m_base is not None and m_other is not None:
+        # a path whose old occupant went away and that another file was renamed onto in OTHER,
+        # while THIS changed what is at that path as well (contents are unique, so equal bytes
+        # at another base path mean "that file, moved here")
+        for p, e in m_other.basis.items():
+            b = m_base.basis.get(p)
+            if not p or b is None or e[1] != T.FILE or b[1] != T.FILE or e[2] == b[2]:
+                continue
+            if any(q != p and v[1] == T.FILE and v[2] == e[2] for q, v in m_base.basis.items()):
+                node = m_this.disk.get(p)
+                if p not in m_this.inv or node is None or node[1] != b[2]:
+                    return "git_rename_onto_vacated_path"
     return None
 
 
@@ -458,7 +479,7 @@ def _generate(rng):
         if mo.classify(op) != "ok":
             return None
         mo.apply(op)
-    g = guarded_state(m, model, mo)
+    g = guarded_state(m, model, mo, mtype)
     if g:
         if g not in unguarded:
             return None
@@ -662,7 +683,7 @@ def _execute(sim, plan, fl, law, mtype):
         raise Abandon("THIS differs from its model before the merge: %s" % _diff(model_view(m_this, fl)[0], before[0]))
     if m_other.changes():
         raise Abandon("OTHER has uncommitted changes")
-    g = guarded_state(m_this, model, m_other) or ("git_dir_rename" if sim.notes.pop("git_dir_rename", None) else None)
+    g = guarded_state(m_this, model, m_other, mtype) or ("git_dir_rename" if sim.notes.pop("git_dir_rename", None) else None)
     if g:
         if g not in plan.get("unguarded", ()):
             raise Abandon("guarded state %s" % g)
